@@ -21,6 +21,7 @@ def configs(tier, seed):
            S("AlfalfaGDD", "Default", seed=seed + 8),
            S("MaizeGDD", "SandyLoam", seed=seed + 9, regime="hot", seasons=2),
            S("Wheat", "SandyLoam", seed=seed + 10, crop_kw={"SwitchGDD": 1}, seasons=2),
+           S("Wheat", "SandyLoam", seed=seed + 19, crop_kw={"SwitchGDD": 1}, seasons=2, harvest_date="12/03"),   # conversion to thermal time, harvest date given
            S("Maize", "Loam", seed=seed + 11, co2={"constant_conc": True, "current_concentration": 550.0}),
            S("Maize", "Loam", seed=seed + 12, co2={"constant_conc": True}),
            S("Maize", "Loam", seed=seed + 13, co2={"co2_data": [[1990, 355.0], [2000, 369.5], [2010, 390.0]]}, seasons=2),
